@@ -4,7 +4,7 @@ import AsyncVerif.Core.Prims
 
 `builtin_sum`, `min_max`, `functools_reduce`, `list`/`tuple` constructors, `sorted` (with `list.sort`
 abstracted as a stable sort that raises `TypeError` when it has to compare unorderable items),
-`heapq.nlargest/nsmallest` (abstracted to their documented meaning `sorted(...)[:n]`) and `heapq.merge`
+`heapq.merge`
 (heap abstracted as "the minimum entry under the entry order").
 -/
 namespace AsyncVerif.Std
@@ -104,14 +104,7 @@ def sorted (fn : Option Nat) (reverse : Bool) (s : Nat) (fuel : Nat) : M Val := 
   let r ← liftExc (sortKeyed reverse keyed)
   pure (.lst r)
 
-/-- `heapq.nlargest(n, it, key)` = `sorted(it, key=key, reverse=True)[:n]`,
-    `heapq.nsmallest(n, it, key)` = `sorted(it, key=key)[:n]`; nothing is pulled for `n = 0` -/
-def nBest (largest : Bool) (n : Nat) (fn : Option Nat) (s : Nat) (fuel : Nat) : M Val :=
-  if n = 0 then pure (.lst [])
-  else do
-    let keyed ← collectKeyed fn s [] fuel
-    let r ← liftExc (sortKeyed largest keyed)
-    pure (.lst (r.take n))
+/-! `heapq.nlargest` / `heapq.nsmallest`: see `Std/Select.lean` (the bounded-heap algorithms) -/
 
 /-! ## merge -/
 
